@@ -54,6 +54,7 @@ def check_schema(file_path: str, state_manager: ComplianceToolStateManager) -> N
         state_manager.add_step('Validate file against official json schema')
         state_manager.set_step_status(Status.NOT_EXECUTED)
         return
+    state_manager.set_step_status(Status.SUCCESS)
     return _check_schema(file_to_be_checked, state_manager)
 
 
@@ -65,7 +66,6 @@ def _check_schema(file_to_be_checked: IO[str], state_manager: ComplianceToolStat
 
     try:
         with file_to_be_checked:
-            state_manager.set_step_status(Status.SUCCESS)
             # read given file and check if it is conform to the json syntax
             state_manager.add_step('Read file and check if it is conform to the json syntax')
             json_to_be_checked = json.load(file_to_be_checked)
